@@ -1,8 +1,8 @@
 (* C06 — Input models accept exactly the schema's input values, with its defaults.
    Property theorems only; proofs live in Proofs/InputsP.v, Proofs/AcceptsP.v, Proofs/DefaultsP.v. *)
-From Coq Require Import List String Ascii ZArith Bool.
+From Coq Require Import List String Ascii ZArith Bool Lia.
 From AC Require Import Base.Json Base.Strs Gql.InSchema Gql.InCoerce Model.Names Model.Defaults Model.Inputs
-  Py.PyEval Proofs.InputsP Proofs.FreshP Proofs.AcceptsP Proofs.DefaultsP Proofs.ValidateP Proofs.ByNameP.
+  Py.PyEval Proofs.InputsP Proofs.FreshP Proofs.AcceptsP Proofs.DefaultsP Proofs.ValidateP Proofs.ByNameP Proofs.ReshapeP.
 Import ListNotations.
 Local Open Scope string_scope.
 
@@ -371,6 +371,44 @@ Proof.
   vm_compute in H3. inversion H3; subst jd. vm_compute in H4. discriminate.
 Qed.
 Print Assumptions C06_default_full_fails_only_on_float_repr.
+
+(* ================= reshaping of default literals (fix e1f804e) preserves their coerced value ================= *)
+Theorem C06_coerced_default_mono : forall s n m t lit cv, n <= m ->
+  coerced_default n s t lit = Some cv -> coerced_default m s t lit = Some cv.
+Proof. exact coerced_default_mono. Qed.
+Print Assumptions C06_coerced_default_mono.
+
+(* for EVERY literal (hypothesis: the GraphQL field names of each input type are unique = schema validity) *)
+Theorem C06_reshape_preserves : forall s,
+  (forall nm fs, kind_of s nm = KInput fs -> names_ok_fields true fs = true) ->
+  forall lit t n cv, coerced_default n s t lit = Some cv ->
+  exists m, coerced_default m s t (coerce_lit s lit t) = Some cv.
+Proof. exact reshape_preserves. Qed.
+Print Assumptions C06_reshape_preserves.
+
+Lemma names_ok_snake a b fs : names_ok_fields a fs = names_ok_fields b fs.
+Proof. induction fs as [|f r IH]; simpl; [reflexivity|]. rewrite IH. reflexivity. Qed.
+
+(* the default theorem on the ORIGINAL schema literal d: if the reshaped literal is of a proved shape, the generated
+   default equals (modulo absent == null) the coerced value of d itself *)
+Theorem C06_default_roundtrip_original_literal : forall s cs snake, schema_ok snake s = true ->
+  forall fs f d n cv,
+  i_default f = Some d -> good_default_w s (coerce_lit s d (i_type f)) (i_type f) = true ->
+  coerced_default n s (i_type f) d = Some cv ->
+  exists k b v jd, default_body (rhs_default (p_value (gen_field s cs snake fs f))) = Some b /\
+                   eval k (env_of s cs snake) b = Ok v /\ dump v = Some jd /\
+                   strip_nulls jd = strip_nulls (json_of_cvalue cv).
+Proof.
+  intros s cs snake OK fs f d n cv D G C.
+  assert (WF : forall nm fs0, kind_of s nm = KInput fs0 -> names_ok_fields true fs0 = true).
+  { intros nm fs0 K. pose proof (kind_of_lookup s nm) as KL. rewrite K in KL.
+    rewrite (names_ok_snake true snake). apply (schema_ok_input snake s nm fs0 OK KL). }
+  destruct (reshape_preserves s WF d (i_type f) n cv C) as [m Hm].
+  assert (ED : emitted_default s f = Some (coerce_lit s d (i_type f))) by (unfold emitted_default; rewrite D; reflexivity).
+  destruct (default_roundtrip_modulo_null s cs snake OK fs f _ m cv (S m) ED G Hm ltac:(lia)) as [b [v [jd H]]].
+  exists (S m), b, v, jd. exact H.
+Qed.
+Print Assumptions C06_default_roundtrip_original_literal.
 
 (* ================= non-vacuity ================= *)
 Definition SX : schema :=
